@@ -62,3 +62,12 @@ Theorem C07_reference_verifier_complete :
       ref_verify H dec (blind H enc t) L = Some (drop_alg (proj H enc (ownS H L) t)).
 Proof. exact ref_verify_complete. Qed.
 Print Assumptions C07_reference_verifier_complete.
+
+(* "with reserved names never used as claim names": claims of the caller that use _sd or ... as a member name
+   (at any depth) or _sd_alg at the top level have no conformant SD-JWT; Issuer::encode refuses them (repair F19) *)
+Require Import SDJ.C14Proofs.
+Theorem C07_reserved_names_refused :
+  forall E claims paths (max_decoys : option BinNums.Z) cnf header,
+    has_reserved true claims = true -> issue E claims paths max_decoys cnf header = Fail.
+Proof. exact issue_reserved_refused. Qed.
+Print Assumptions C07_reserved_names_refused.
